@@ -494,7 +494,7 @@ def harness_src_for(factory):
     def h(E, ctx, aux):
         ch = s2.Chooser(E, getattr(ctx, "cube", ()))
         src = factory(ch).program()
-        for rl in (1, 2):
+        for rl in (-1, 1, 2):
             desc = {"kind": "history", "src": src, "reload_before": rl}
             ctx.current = desc
             ctx.evaluations += 1
@@ -524,6 +524,12 @@ def jobs(tier):
         srcjob("histories-source-S2-ctl-c2" + ("-d2-t1" if tier == "quick" else "-d3-t2"),
                (lambda ch: s2.CtlGen(ch, 2, 2, 1)) if tier == "quick" else (lambda ch: s2.CtlGen(ch, 2, 3, 2)), 3,
                {"space": "source-derived graphs (AST2SCFG over S2-ctl)", "reload_before_stage": [1, 2]}, budget=1200),
+        srcjob("histories-source-S2-loop-in-branch-arm", lambda ch: s2.ArmLoopGen(ch), 3,
+               {"space": "source-derived graphs (AST2SCFG over S2-armloop)", "reload_before_stage": [-1, 1, 2]}, budget=900),
+        srcjob("histories-source-S2-loop-in-nested-branch-arm", lambda ch: s2.ArmLoopGen(ch, nested=True), 3,
+               {"space": "source-derived graphs (AST2SCFG over S2-armloop nested in an enclosing if)", "reload_before_stage": [-1, 1, 2]}, budget=900),
+        srcjob("histories-source-S2-multi-exit-loop-then-branching-code", lambda ch: s2.SeqLoopGen(ch), 3,
+               {"space": "source-derived graphs (AST2SCFG over S2-seqloop)", "reload_before_stage": [-1, 1, 2]}, budget=900),
         Job("astsmt-obligations", space_a, harness_a, bounds={"kind_length<=": MAXLEN, "index<=": MAXIDX, "methods": METHODS}, budget_s=900, path_timeout_s=120),
         Job("request-sequences-L3", lambda: space_b(3), harness_b, bounds={"length": 3, "kinds": KINDS_B, "types": TYPES_B}, budget_s=600),
         Job("histories-N3", lambda: space_c(3), harness_c, bounds={"blocks": 3, "schemes": len(SCHEMES), "reload_before_stage": [-1, 0, 1, 2]}, budget_s=900),
